@@ -282,7 +282,7 @@ NP_LIKE = ("np.empty_like", "np.zeros_like", "numpy.empty_like", "numpy.zeros_li
 
 
 class Exec:
-    def __init__(self, unit, fname, mode="kernel", param_kinds=None, int_names=None, label=None, array_len=None, probe=False, primary=None):
+    def __init__(self, unit, fname, mode="kernel", param_kinds=None, int_names=None, label=None, array_len=None, probe=False, primary=None, nofold=None):
         self._ctor = dict(mode=mode, param_kinds=param_kinds, int_names=int_names, label=label, array_len=array_len)
         self.unit = unit
         self.f = unit.func(fname)
@@ -299,6 +299,7 @@ class Exec:
         self.int_decl = dict(getattr(self.f, "ctypes", {}) or {})
         self.is_c = isinstance(unit, R.CUnit)
         self.params = [p[0] for p in self.f.params]
+        self.boolvars = control_flags(self.f)      # locals that only ever hold False / True / small integer constants / truth values
         self._infer_ints()
         for i, (s, depth, parent) in enumerate(R.loops_of(self.f.body)):
             self.loop_ids[id(s)] = f"H{i + 1}"
@@ -314,8 +315,9 @@ class Exec:
         self.steps = 0
         # control flags (see control_flags): `probe` = every (loop head, setting of its live flags) is its own cut point; otherwise a head
         # is cut only under its `primary` setting and a path that arrives under another one runs on through the head
-        self.flags = control_flags(self.f)
+        self.flags = set(self.boolvars) - set(nofold or ())
         self.flag_live = flag_liveness(self.f.body, self.flags) if self.flags else {}
+        self.nofold = set(nofold or ())      # flags kept as ordinary integer state variables (their heads iterate under several settings)
         self.probe = probe
         self.primary = dict(primary or {})
         self.settings = {}         # probe: loop id -> {composite cut point name: setting}
@@ -338,8 +340,8 @@ class Exec:
             if s[0] == "set" and s[1][0] == "var":
                 assigns.setdefault(s[1][1], []).append(s[2])
         # greatest fixpoint: every assigned scalar is an integer until one of its assignments is not an integer expression of integers
-        cand = set(assigns)
-        base = set(self.ints)
+        cand = set(assigns) - self.boolvars
+        base = set(self.ints) | self.boolvars
         changed = True
         while changed:
             changed = False
@@ -354,6 +356,8 @@ class Exec:
         k = e[0]
         if k == "num":
             return e[1].denominator == 1
+        if k == "bool":
+            return True          # False / True are the integers 0 / 1 (a flag that is not folded into the control state is an integer counter)
         if k == "var":
             return e[1] in self.ints
         if k == "bin" and e[1] in "+-*":
@@ -367,6 +371,8 @@ class Exec:
         k = e[0]
         if k == "num":
             return e[1].denominator == 1
+        if k == "bool":
+            return True
         if k == "var":
             return e[1] in self.ints
         if k == "aff":
@@ -385,6 +391,8 @@ class Exec:
             return Aff(dict(e[1]), e[2])
         if k == "num":
             return Aff({}, e[1])
+        if k == "bool":
+            return Aff({}, 1 if e[1] else 0)
         if k == "var":
             return V(e[1])
         if k == "opq":
@@ -928,7 +936,7 @@ class Exec:
                 return self.block([s2] + list(rest), p, K)
         nxt = (lambda q: self.block(rest, q, K)) if rest else K["fall"]
         k = s[0]
-        if k == "set" and s[1][0] == "var" and s[1][1] in self.flags and not _is_flag_const(s[2]) and _is_bool_expr(s[2]):
+        if k == "set" and s[1][0] == "var" and s[1][1] in self.boolvars and not _is_flag_const(s[2]) and _is_bool_expr(s[2]):
             # `flag = X < Y`  ==  `if X < Y: flag = True else: flag = False`: the flag holds a constant on every path
             yes, no = (("num", Fraction(1)), ("num", Fraction(0))) if self.is_c else (("bool", True), ("bool", False))
             return self.block([("if", s[2], [("set", s[1], yes)], [("set", s[1], no)])] + list(rest), p, K)
@@ -1362,12 +1370,12 @@ class Exec:
         point gives the graph of control states; the setting under which the loop *iterates* (the pair lies on a cycle inside the loop's own
         nest) is the head's, every other setting is transient (the way into the loop, or out of it) and is folded into the paths that go
         through it.  Two iterating settings (a mode switch that persists across iterations) are not reducible to one head: undecided."""
-        pr = Exec(self.unit, self.f.name, probe=True, **self._ctor)
+        pr = Exec(self.unit, self.f.name, probe=True, nofold=self.nofold, **self._ctor)
         pr.opaque = set(self.opaque)
         pr.limit = self.limit
         pr.run(args)
         if not pr.settings:
-            return
+            return True
         parent = {}
         for s, depth, par in pr.loops:
             parent[pr.loop_ids[id(s)]] = pr.loop_ids[id(par)] if par is not None else None
@@ -1406,12 +1414,23 @@ class Exec:
                 first = [n for n in pr.node_order if n in names]
                 self.primary[lid] = names[first[0]]
             else:
-                raise Unsupported(f"{self.label}: the loop at {lid} iterates under {len(rec)} different settings of its control flags "
-                                  f"({'; '.join(sorted(x.split('#', 1)[1] for x in rec))}): not reducible to one loop head")
+                # a mode that persists across passes of the loop: these flags stay ordinary (integer) state variables of the system
+                drop = {v for v, _ in next(iter(names.values()))}
+                self.folded.append(f"{lid}: the loop iterates under {len(rec)} settings of {sorted(drop)} "
+                                   f"({'; '.join(sorted(x.split('#', 1)[1] for x in rec))}): kept as state variables, not folded into the control state")
+                self.nofold |= drop
+                self.flags -= drop
+                self.flag_live = flag_liveness(self.f.body, self.flags) if self.flags else {}
+                self.primary = {}
+                return False
+        return True
 
     def run(self, args=None):
-        if self.flags and not self.probe and not self.primary and any(self.flag_live.values()):
-            self._choose_primaries(args)
+        for _ in range(4):
+            if not (self.flags and not self.probe and not self.primary and any(self.flag_live.values())):
+                break
+            if self._choose_primaries(args):
+                break
         p = Path(START)
         for i, (nm, cls, q) in enumerate(self.f.params):
             kind = self.param_kinds[i] if i < len(self.param_kinds) else None
@@ -2261,6 +2280,64 @@ def merge_exits(ts):
     return ts
 
 
+def _reads_work(e):
+    """does the value read an array other than the input?"""
+    if isinstance(e, tuple) and e:
+        if e[0] == "sel" and e[1] != "peaks" and not str(e[1]).startswith("param:"):
+            return True
+        if e[0] in ("unknown", "opq"):
+            return True
+        return any(_reads_work(x) for x in e[1:])
+    return False
+
+
+def peel_entry(ts, pre=()):
+    """What the entry state decides is done on the way in: while the state a START transition arrives with (constants, and `pre`, e.g. L >= 2)
+    leaves exactly one way on from the head, and that way neither tests data nor reads the work arrays, the two are composed.  `j = -1; for k in
+    range(L): push` and `push peaks[0]; j = 0; for k in range(1, L): push` then arrive at the count loop in the same state."""
+    ex = ts.ex
+    pre = list(pre)
+    for _ in range(4):
+        changed = False
+        out = []
+        for t in ts.trans:
+            h = t["dst"]
+            if t["src"] != START or h in (END, RAISE, FAIL, EPI) or any(x == ("unknown",) for x in t["scal"].values()):
+                out.append(t)
+                continue
+            mp = dict(t["scal"])
+            feas = []
+            for u in ts.trans:
+                if u["src"] != h:
+                    continue
+                atoms = [(subst_vars(a, mp, ex), tk) for a, tk in u["key"]]
+                key = list(t["key"]) + atoms
+                cons, disj, _ = guard_of(dict(key=key), ex)
+                if feasible_with(cons + pre, disj):
+                    feas.append((u, key))
+            if len(feas) != 1:
+                out.append(t)
+                continue
+            u, key = feas[0]
+            if u["dst"] in (END, RAISE, FAIL) or u["events"] or u.get("ret") is not None or u.get("exc") is not None \
+                    or any(a[0] not in ("ige", "ieq") for a, _ in u["key"]) or any(_reads_work(x) for x in values_of(u)):
+                out.append(t)
+                continue
+            arrays = {b: list(st) for b, st in t["arrays"].items()}
+            for b, st in u["arrays"].items():
+                for i, x in st:
+                    arrays.setdefault(b, []).append((ex.aff(subst_vars(aff_ir(i), mp, ex)), subst_vars(x, mp, ex)))
+            acc = list(t["acc"]) + [(b, ex.aff(subst_vars(aff_ir(i), mp, ex)), rw) for b, i, rw in u["acc"]]
+            scal = {v: subst_vars(x, mp, ex) for v, x in u["scal"].items()}
+            out.append(dict(t, dst=u["dst"], key=_decided_dropped(key, ex), scal=scal, arrays=arrays, acc=acc))
+            ts.notes.append(f"START -> {h} -> {u['dst']}: the entry state decides the first move at {h}; composed")
+            changed = True
+        ts.trans = out
+        if not changed:
+            break
+    return ts
+
+
 def _decided_dropped(key, ex):
     """a guard without the integer atoms that no longer mention a variable (decided by the composition) and without repeated atoms"""
     out = []
@@ -2415,8 +2492,16 @@ def compare_named(a, b, only=None):
                 cons = ca + cb
                 if not feasible_with(cons, ja + jb):
                     continue
-                hitA[i] = hitB[j] = True
                 sub = equalities(cons)
+                if sub:
+                    # the same data-dependent test spelled with what the integer tests of the two paths imply (`pts[j - 2]` after `j == 2` is
+                    # `pts[0]`, whichever test the source makes first): opposite outcomes of one test are not jointly satisfiable
+                    mp = {v: aff_ir(x) for v, x in sub.items()}
+                    da2 = {repr(subst_vars(x, mp, ex)): y for x, y in ta["key"] if _atom_cons(x, y, ex) is None}
+                    db2 = {repr(subst_vars(x, mp, ex)): y for x, y in tb["key"] if _atom_cons(x, y, ex) is None}
+                    if any(k in db2 and db2[k] != v for k, v in da2.items()):
+                        continue
+                hitA[i] = hitB[j] = True
                 if ta["dst"] != tb["dst"]:
                     return {"at": n, "what": f"from {n}: under the same conditions one goes to {ta['dst']}, the other to {tb['dst']}",
                             "left": [(show(x), y) for x, y in ta["key"]], "right": [(show(x), y) for x, y in tb["key"]]}
